@@ -4,7 +4,7 @@ from typing import Dict, List, Optional, Set, Tuple
 
 from ..model import AnalysisError, Program, ClassInfo, FunctionInfo, walk_function, parent, dotted_name
 from ..guards import (norm, card_admitted, name_subject, isinstance_atom, known_instance, tag_equalities,
-                      call_name, const_str, kwarg, Copies, card_truth)
+                      call_name, const_str, kwarg, Copies, card_truth, canon_atom)
 from ..facts import (Fn, verdict, whole_collection_loop, enclosing_loops, enclosing_stmt, str_format_const,
                      assigned_from, CORE, MUTATORS, loop_exits)
 from ..cfg import conj_atoms
@@ -382,8 +382,9 @@ def type_to_tag_table(ctx, r=None) -> Dict[str, str]:
             r.check(table.get(kind) == expect, '__type_to_tag: %s -> %s under %s' % (kind, expect, guard),
                     f.key('kind:%s' % kind), f.loc(),
                     '__type_to_tag maps a %s type to %s (expected %s under guard %s)' % (kind, table.get(kind), expect, guard))
-        r.check(not f.falls_off_end(), '__type_to_tag raises for an unknown type instead of returning None',
-                f.key('fallthrough'), f.loc(), '__type_to_tag can fall off its end and return None as a tag')
+        # what happens for a type of no supported kind is outside the property (model error): informational only
+        if f.falls_off_end():
+            ctx.notes.append('__type_to_tag can fall off its end for a type of no supported kind (tag None -> PyYAML ConstructorError)')
     return table
 
 
@@ -738,7 +739,12 @@ def strip_exempt_removed(P: Program) -> Tuple[Optional[Set[str]], str, Fn]:
             for n in f.walk():
                 if isinstance(n, ast.Call) and isinstance(n.func, ast.Attribute) and norm(n.func.value) == name:
                     if n.func.attr in ('remove', 'discard') and n.args and const_str(n.args[0]) is not None:
-                        removed.add(const_str(n.args[0]))
+                        # counts only when it is executed whenever the name is in the list: live, and guarded by nothing
+                        # but the membership test for the same name (or an earlier raise for its absence)
+                        c0 = const_str(n.args[0])
+                        gs = {canon_atom(g, p) for g, p in f.guards(n)}
+                        if f.live(n) and all(t == ("%r in %s" % (c0, name)) and p for t, p in gs):
+                            removed.add(c0)
                     elif n.func.attr in MUTATORS:
                         return None, 'known-keys list mutated by %s' % norm(n), f
         else:
@@ -1542,6 +1548,12 @@ def r17_4_no_silent_reject(ctx, rid='R17.4'):
                     r.fail(f.key('ok-with:%s' % norm(s)), f.loc(ret), 'REC_OK is returned with %s' % norm(s))
             elif ek == 'ERR' and sk == 'ONE':
                 r.fail(f.key('accept-with-error'), f.loc(ret), 'a unique match is returned with an error')
+        # every exit hands back a (verdict, error) pair: callers unpack it
+        if q.split('.')[-1].startswith(('__recognize', 'recognize')):
+            bare = [x for x in f.returns() if x.value is None or (isinstance(x.value, ast.Constant) and x.value.value is None)]
+            r.check(not f.falls_off_end() and not bare, '%s: every exit returns a verdict pair' % q, f.key('no-verdict-exit'),
+                    f.loc(bare[0]) if bare else f.loc(), '%s can end without returning a (types, error) pair: the caller\'s tuple '
+                    'unpacking raises TypeError instead of the load reporting a RecognitionError' % q)
     r.done()
 
 
@@ -2166,6 +2178,28 @@ def r10_hooks(ctx):
                      g.key('sweetened-node-returned'), g.loc(ret), 'Representer.__call__ returns %s, not the sweetened node' % txt)
     if not sw:
         r4.fail(g.key('no-sweeten'), g.loc(), 'Representer.__call__ never sweetens')
+    # enum / string-like representers: the node the hook was given (and may have replaced) is what is returned
+    for key in ('yatiml.representers:EnumRepresenter.__call__', 'yatiml.representers:UserStringRepresenter.__call__'):
+        g = fn(P, key)
+        for c in hook_calls(g, '_yatiml_sweeten'):
+            if not g.live(c):
+                continue
+            w = c.args[0] if c.args else None
+            okw = isinstance(w, ast.Name) and any(isinstance(x, ast.Call) and call_name(x) == 'Node' for x in assigned_from(g, w.id))
+            backs = {g.nid(n) for n in g.walk() if isinstance(n, ast.Assign) and isinstance(w, ast.Name)
+                     and norm(n.value) == '%s.yaml_node' % w.id and isinstance(n.targets[0], ast.Name)}
+            okr = True
+            for ret in g.returns():
+                if g.nid(ret) not in g.cfg.reachable(g.nid(c)):
+                    continue
+                direct = isinstance(w, ast.Name) and ret.value is not None and norm(ret.value) == '%s.yaml_node' % w.id
+                via = isinstance(ret.value, ast.Name) and bool(backs) and g.cfg.must_pass(g.nid(c), g.nid(ret), backs) and all(
+                    norm(g.cfg.nodes[b].ast.targets[0]) == ret.value.id for b in backs)
+                if not (direct or via):
+                    okr = False
+            r4.check(okw and okr, '%s: the sweetened node (%s.yaml_node) is what is returned' % (g.fi.qual, norm(w) if w is not None else '?'),
+                     g.key('sweetened-node-returned'), g.loc(c), '%s: a node replaced by _yatiml_sweeten (Node.set_value installs a new '
+                     'node) is dropped: the un-sweetened scalar is dumped' % g.fi.qual)
     r4.done()
 
     r5 = ctx.rule('R10.5', 'a SeasoningError raised while savourising is converted to RecognitionError', floor=1)
